@@ -326,7 +326,7 @@ def main():
         "not_applicable": na,
         "notes": "Every check: TLC model-checks the design spec, TLC generates cases/behaviours, the Go harness replays them on the code "
                  "built from /repo's working tree and records traces, TLC validates the traces against the trace spec. Exit 2 = machinery "
-                 "failure (never a verdict). Known findings: /verif/known_findings.json. Extension families X01 (package op) and X02 (encoding/osm Geom / CountTags) specify behaviour outside the listed properties: ./check X01|X02 quick|thorough, DEVIATION lines, evidence under /verif/evidence_ext (DESIGN.md 9.7); they are not checks of this manifest.",
+                 "failure (never a verdict). Known findings: /verif/known_findings.json. Extension families X01 (package op), X02 (encoding/osm Geom / CountTags) and X03 (the +axis / +to_meter stages of the proj transformation closure) specify behaviour outside the listed properties: ./check X01|X02|X03 quick|thorough, DEVIATION lines, evidence under /verif/evidence_ext (DESIGN.md 9.7); they are not checks of this manifest.",
     }
     with open(os.path.join(VERIF, "MANIFEST.json"), "w") as f:
         json.dump(m, f, indent=1)
